@@ -54,3 +54,12 @@ package adder
 //@   property C13
 //@   ensures rpcN == old(rpcN) + 1 && rpcLastSvc == "Cluster" && rpcLastMethod == "BlockAllocate"
 //@   modifies rpcN, rpcLastSvc, rpcLastMethod, rpcLastArg
+
+// ---- assumed (not verified): the adder does not touch the HTTP response ----
+//@ func New
+//@   opts trusted
+//@   ensures res != nil
+//@   modifies nothing
+//@ func (a *Adder) FromMultipart
+//@   opts trusted
+//@   modifies nothing
